@@ -602,7 +602,9 @@ async def stdio_client(
         for exc in eg.exceptions:
             if not isinstance(exc, anyio.get_cancelled_exc_class()):
                 error_msg = str(exc)
-                if "cancel scope" in error_msg.lower():
+                # only anyio's own complaint is expected noise: an application error that
+                # merely mentions the words (e.g. a server's error message) must propagate
+                if isinstance(exc, RuntimeError) and "cancel scope" in error_msg.lower():
                     logger.debug(
                         f"stdio_client cancel scope issue (expected during shutdown): {exc}"
                     )
@@ -616,7 +618,9 @@ async def stdio_client(
         # Handle regular exceptions
         if not isinstance(e, anyio.get_cancelled_exc_class()):
             error_msg = str(e)
-            if "cancel scope" in error_msg.lower():
+            # only anyio's own complaint is expected noise: an application error that
+            # merely mentions the words (e.g. a server's error message) must propagate
+            if isinstance(e, RuntimeError) and "cancel scope" in error_msg.lower():
                 logger.debug(
                     f"stdio_client cancel scope issue (expected during shutdown): {e}"
                 )
@@ -692,7 +696,9 @@ async def stdio_client_with_initialize(
         for exc in eg.exceptions:
             if not isinstance(exc, anyio.get_cancelled_exc_class()):
                 error_msg = str(exc)
-                if "cancel scope" in error_msg.lower():
+                # only anyio's own complaint is expected noise: an application error that
+                # merely mentions the words (e.g. a server's error message) must propagate
+                if isinstance(exc, RuntimeError) and "cancel scope" in error_msg.lower():
                     logger.debug(
                         f"stdio_client_with_initialize cancel scope issue (expected): {exc}"
                     )
@@ -708,7 +714,9 @@ async def stdio_client_with_initialize(
         # Handle regular exceptions
         if not isinstance(e, anyio.get_cancelled_exc_class()):
             error_msg = str(e)
-            if "cancel scope" in error_msg.lower():
+            # only anyio's own complaint is expected noise: an application error that
+            # merely mentions the words (e.g. a server's error message) must propagate
+            if isinstance(e, RuntimeError) and "cancel scope" in error_msg.lower():
                 logger.debug(
                     f"stdio_client_with_initialize cancel scope issue (expected): {e}"
                 )
